@@ -85,6 +85,8 @@ struct Failure {
     method_types: bool,
     /// the text (entry or a required module) contains `--` (H7 needs it)
     text_has_comment: bool,
+    /// the entry text (H9 needs it)
+    text: String,
 }
 
 #[derive(Default)]
@@ -176,6 +178,7 @@ fn run_pipeline(case: &Case, config_text: &str, result: &mut CaseResult) {
             uncovered_tree: result.uncovered_tree,
             method_types: result.method_types,
             text_has_comment: result.text_has_comment,
+            text: case.text.clone(),
         });
     };
     let configuration = match guarded(|| json5::from_str::<Configuration>(config_text)) {
@@ -275,6 +278,7 @@ fn check_batch_outputs(case: &Case, resources: &Resources, config_text: &str, re
                 uncovered_tree: false,
                 method_types: false,
                 text_has_comment: false,
+                text: case.text.clone(),
             });
         }
     }
@@ -286,7 +290,7 @@ fn run_case(case: &Case) -> CaseResult {
     result.text_has_comment = text.contains("--") || case.files.iter().any(|(_, c)| c.contains("--"));
     let mut fail = |result: &mut CaseResult, kind: &str, stage: &str, panic: Option<PanicInfo>, detail: String| {
         let (uncovered_tree, method_types, text_has_comment) = (result.uncovered_tree, result.method_types, result.text_has_comment);
-        result.failures.push(Failure { kind: kind.to_owned(), stage: stage.to_owned(), panic, detail, config: None, uncovered_tree, method_types, text_has_comment });
+        result.failures.push(Failure { kind: kind.to_owned(), stage: stage.to_owned(), panic, detail, config: None, uncovered_tree, method_types, text_has_comment, text: case.text.clone() });
     };
     // ---- Parser::parse, both modes
     let plain = guarded(|| Parser::default().parse(text));
@@ -418,6 +422,22 @@ fn classify<'k>(known: &'k [Known], failure: &Failure) -> Option<&'k Known> {
                             })
                     })
                     .unwrap_or(false)
+        }
+        "reparse-infinite-number-literal" => {
+            failure.kind == "reparse"
+                && failure
+                    .config
+                    .as_deref()
+                    .and_then(|c| serde_json::from_str::<Value>(c).ok())
+                    .map(|v| v["generator"].is_object())
+                    .unwrap_or(false)
+                && failure
+                    .text
+                    .split(|c: char| !(c.is_ascii_alphanumeric() || c == '_' || c == '.'))
+                    .any(|word| {
+                        word.starts_with(|c: char| c.is_ascii_digit() || c == '.')
+                            && word.replace('_', "").parse::<f64>().map(|v| v.is_infinite()).unwrap_or(false)
+                    })
         }
         "pipeline-on-uncovered-tree" => {
             failure.uncovered_tree && failure.config.is_some() && failure.kind != "hang" && failure.stage != "configuration"
@@ -1303,6 +1323,7 @@ pub fn run(report: &mut Report, replay: Option<&str>) {
                         uncovered_tree: false,
                         method_types: false,
                         text_has_comment: false,
+                        text: case.text.clone(),
                     },
                 ));
             }
